@@ -329,9 +329,12 @@ func (h *fwdHist) write(buf []byte, inCache bool, kf bool) {
 	if ferr != nil {
 		// Write returns the error before touching any state
 		ps, _, err := h.v.Write(buf)
+		h.t.Checked("C01.unparsable_not_forwarded")
 		if err == nil || len(ps) != 0 {
 			h.t.Fail("C02", "flags_error", "Write forwarded a packet whose flags cannot be parsed")
+			h.t.Fail("C01", "unparsable_not_forwarded", fmt.Sprintf("a packet whose payload cannot be parsed (%s) was forwarded without passing through the sequence-number map: after %d withheld packets it goes out under a number that belongs to another packet", tr.Hex(buf), len(h.withheld)))
 		}
+		h.t.Note("unparsable-packet")
 		return
 	}
 	if inCache {
@@ -766,6 +769,16 @@ func runForward(t *tr.Trace, r *tr.Rand, n int) {
 				}
 				if stream != "steady" && r.Chance(1, 30) && len(recent) > 0 {
 					h.write(recent[r.Intn(len(recent))], false, false) // late duplicate
+				}
+				if stream != "steady" && r.Chance(1, 35) {
+					// a packet the codec parser rejects (bandwidth probing: padding
+					// only, no payload; or a payload cut inside its descriptor)
+					q := append([]byte{}, p[:12]...)
+					q[2], q[3] = byte((g.seq+uint16(r.Range(0, 3)))>>8), byte(g.seq+uint16(r.Range(0, 3)))
+					if r.Bool() && len(p) > 13 {
+						q = append(q, p[12])
+					}
+					h.write(q, false, false)
 				}
 				h.write(p, true, false)
 				recent = append(recent, p)
